@@ -19,7 +19,11 @@ Denotes(e) ==
 
 Clause(e) ==
   LET st == Status(e.D) IN
-  IF st = "fault" THEN (IF e.accepted = <<>> THEN "ok_fault_rejected" ELSE "fault_not_rejected_by_" \o e.accepted[1])
+  IF st = "fault" THEN
+     \* a module-name clash is an export-time fault: `elaborate` alone is not required to detect it
+     LET acc == IF FaultClauses(e.D) \subseteq {"module_name_clash"} THEN SelectSeq(e.accepted, LAMBDA x : x # "elaborate") ELSE e.accepted
+     IN IF acc = <<>> THEN "ok_fault_rejected" ELSE "fault_not_rejected_by_" \o acc[1]
+  ELSE IF st = "unspecified" THEN "ok_unspecified"
   ELSE IF e.raised THEN (IF st = "valid" THEN "rejected_valid" ELSE "ok_lenient_rejected")
   ELSE LET d == Denotes(e) IN IF d = "" THEN "ok_" \o st ELSE d
 
@@ -27,7 +31,7 @@ Init == l = 1
 Next == /\ l <= Len(T_)
         /\ LET e == T_[l]  c == Clause(e)
                info == IF Status(e.D) = "fault" THEN c \o ":" \o ToString(FaultClauses(e.D)) ELSE c
-           IN PrintT(<<"VERDICT", e.tid, c \in {"ok_fault_rejected", "ok_lenient_rejected", "ok_valid", "ok_lenient", "rejected_valid"}, info>>)
+           IN PrintT(<<"VERDICT", e.tid, c \in {"ok_fault_rejected", "ok_lenient_rejected", "ok_valid", "ok_lenient", "ok_unspecified", "rejected_valid"}, info>>)
         /\ l' = l + 1
 Spec == Init /\ [][Next]_l
 =============================================================================
